@@ -309,6 +309,25 @@ def install():
     vectors.sympy = shim
     transformsNd.Matrix = MatrixShim
     quatmod.float = _float_shim
+
+    import scipy as _scipy
+
+    class _ScipyLinalg:
+        def __getattr__(self, k):
+            return getattr(_scipy.linalg, k)
+
+        def logm(self, A, *a, **kw):
+            if has_term(A) or (_symbolic_active() and getattr(A, 'dtype', None) == object):
+                raise NotEncodable('scipy.linalg.logm (LAPACK Schur decomposition)')
+            return _scipy.linalg.logm(A, *a, **kw)
+
+    class _ScipyProxy:
+        linalg = _ScipyLinalg()
+
+        def __getattr__(self, k):
+            return getattr(_scipy, k)
+
+    transforms2d.scipy = _ScipyProxy()
     return dict(math=mp, np=npx)
 
 
